@@ -244,7 +244,11 @@ func emitE2ECase(env *e2eEnv, run *e2eRun, o e2eCaseOpts) string {
 	var errs []string
 	for _, e := range run.Resp.Errors {
 		k, names := classifyError(e)
-		errs = append(errs, "{| oe_kind := "+k+"; oe_path := "+cPath(e.Path)+"; oe_names_service := "+cbool(names)+" |}")
+		path := cPath(e.Path)
+		if k == "EPerm" { // a permission error names the removed field in its message, not in "path"
+			path = clist([]string{"PName " + cstr(strings.TrimSuffix(e.Message, " access disallowed"))})
+		}
+		errs = append(errs, "{| oe_kind := "+k+"; oe_path := "+path+"; oe_names_service := "+cbool(names)+" |}")
 	}
 	fuel := o.fuel
 	if fuel == 0 {
